@@ -528,8 +528,18 @@ def r4_gsd_partial(ctx, repo):
             rp, rl = range_bounds(c1.generators[0].iter), range_bounds(c3.generators[0].iter)
             if rp and rl and access_path(c2.generators[0].iter) == fl:
                 okp = rp[0] is not None and text(rp[0]) == "1" and bool(poly.equal(rp[1], poly.parse("%s + 1" % P))) and rp[2] is None
-                okl = rl[0] is not None and text(rl[0]) == "1" and access_path(rl[1]) == nl and rl[2] is None
-                oki = poly.equal(c3.elt, poly.parse("%s + (%s - 1) * %s" % (pi, li, P)))
+                # the members of one class, independent of how the inner counter is parametrised: an affine index that starts at
+                # the partition number, advances by the reduction, for (number of levels - 1) candidates
+                try:
+                    a_ = rl[0] if rl[0] is not None else poly.parse("0")
+                    first = poly.norm(c3.elt, {li: a_})
+                    slope = poly.norm(c3.elt, {li: poly.parse("1")}) - poly.norm(c3.elt, {li: poly.parse("0")})
+                    second = poly.norm(c3.elt, {li: poly.parse("2")}) - poly.norm(c3.elt, {li: poly.parse("1")})
+                    count = poly.norm(rl[1]) - poly.norm(a_)
+                    okl = rl[2] is None and count == poly.norm(poly.parse("%s - 1" % nl))
+                    oki = first == poly.norm(poly.parse(pi)) and slope == poly.norm(poly.parse(P)) and second == slope
+                except poly.NotPolynomial:
+                    okl, oki = None, None
                 ifs = c3.generators[0].ifs
                 okg = None
                 if len(ifs) == 1 and isinstance(ifs[0], ast.UnaryOp) and isinstance(ifs[0].op, ast.Not) and isinstance(ifs[0].operand, ast.Compare) \
@@ -548,7 +558,7 @@ def r4_gsd_partial(ctx, repo):
                         okg = isinstance(t.ops[0], ast.LtE)
                 elif not ifs:
                     okg = False
-                if oki is not None and okg is not None:
+                if oki is not None and okg is not None and okl is not None:
                     state = bool(okp and okl and oki and okg)
                     detail = "level index = partition + (k-1)*reduction <= number of levels: residue classes mod `reduction`, disjoint and covering 1..L (for L >= 2)" if state else \
                         "the partition of a factor's levels is not the residue-class partition index = p + (k-1)*reduction <= L (p-range ok=%s, k-range ok=%s, index ok=%s, guard ok=%s)" % (bool(okp), bool(okl), bool(oki), bool(okg))
